@@ -58,6 +58,7 @@ type Glue interface {
 	NewParser() Parser
 	MakeToken(name, lit string, off, line, col int) interface{}
 	MutateToken(x interface{})
+	TokMethods(x interface{})
 	TokInfo(x interface{}) (TokInfo, bool)
 	ErrInfo(x interface{}) (ErrInfo, bool)
 }
@@ -83,6 +84,9 @@ type Input struct {
 type Fault struct {
 	CtxSwapAt  int    `json:"ctx_swap_at,omitempty"`   // not a fault: the action at/after this $Context-using call replaces the parser's Context
 	MutateToks bool   `json:"mutate_tokens,omitempty"` // not a fault: actions modify the token objects they are given (after logging them)
+	NestAt     int    `json:"nest_at,omitempty"`       // not a fault: the action at this call parses NestIn with a helper parser of the same package
+	NestIn     *Input `json:"nest_in,omitempty"`
+	NestExpect string `json:"nest_expect,omitempty"` // what the helper parse must return
 	ActionCall int    `json:"action_call,omitempty"`
 	Kind       string `json:"kind,omitempty"` // error | panic
 	ScanPanic  int    `json:"scan_panic,omitempty"`
@@ -118,6 +122,10 @@ type Job struct {
 	Reuse        bool          `json:"reuse,omitempty"`         // c03: one parser object serves the whole enumeration
 	CtxSwap      int           `json:"ctx_swap,omitempty"`      // c03: actions replace the parser's Context from this $Context-using call on
 	MutateToks   bool          `json:"mutate_tokens,omitempty"` // c03: actions modify the tokens they are given
+	NestAt       int           `json:"nest_at,omitempty"`       // c03: the action at this call runs a helper parser over NestIn
+	NestIn       *Input        `json:"nest_in,omitempty"`
+	NestExpect   string        `json:"nest_expect,omitempty"`
+	TokMethods   bool          `json:"tok_methods,omitempty"` // c03: actions call the tokens' convenience methods
 	Schedule     gsim.Schedule `json:"schedule,omitempty"`
 }
 
@@ -167,8 +175,9 @@ func ctxOf(i int) interface{} {
 // ---- rendering ----
 
 type env struct {
-	g    Glue
-	full bool // include line/column/context in token renderings
+	g          Glue
+	full       bool // include line/column/context in token renderings
+	tokMethods bool // actions call the convenience methods of the tokens they receive
 }
 
 func (e *env) renderTok(ti TokInfo) string {
@@ -318,6 +327,24 @@ func (e *env) runParse(p Parser, lex Lexer, in *Input, f *Fault, sess *act.Sessi
 	}
 	if f != nil && f.MutateToks {
 		sess.Mutate = e.g.MutateToken
+	}
+	if e.tokMethods {
+		sess.TokMethods = e.g.TokMethods
+	}
+	if f != nil && f.NestAt > 0 && f.NestIn != nil {
+		sess.NestAt = f.NestAt
+		sess.Nested = func() {
+			// a helper parser of the same generated package, run to completion inside the action
+			t := gsim.Cur()
+			savedData, savedSteps := t.Data, t.Steps
+			inner := &act.Session{TaskID: sess.TaskID}
+			t.Data = inner
+			o := e.runParse(e.g.NewParser(), e.newLexFor(f.NestIn, nil), f.NestIn, nil, inner, nil)
+			t.Data, t.Steps = savedData, savedSteps
+			if o.Panic != "" || !o.ErrNil || o.Result != f.NestExpect {
+				sess.Problems = append(sess.Problems, "a helper parser run inside an action returned "+clipS(o.Result+" "+o.ErrText+" "+o.Panic)+" instead of "+clipS(f.NestExpect))
+			}
+		}
 	}
 	defer func() {
 		// the swap is part of this call only: put the parser's Context back
@@ -547,4 +574,11 @@ func runJob(g Glue, j *Job, res *JobResult) {
 	default:
 		res.Harness = "unknown job kind " + j.Kind
 	}
+}
+
+func clipS(s string) string {
+	if len(s) > 200 {
+		return s[:200] + "..."
+	}
+	return s
 }
